@@ -92,7 +92,16 @@ func rulePU4() Rule {
 							allowed[tgt] = map[string]bool{"interp.NewExecEnv": true, "interp.(*ExecEnv).Set": true, "interp.(*ExecEnv).Unset": true}
 						}
 						key := f.Name + "|" + what
-						if allowed[tgt][f.Root().Name] {
+						owned := allowed[tgt][f.Root().Name]
+						if !owned {
+							// a private helper of an owner (code extracted from it) still is the owner
+							for o := range allowed[tgt] {
+								if c.inRegion(o, f) {
+									owned = true
+								}
+							}
+						}
+						if owned {
 							rr.OK(f, key, pos, "owner", "written by one of the functions that own "+tgt)
 						} else {
 							rr.Bad(f, key, pos, fmt.Sprintf("ExecEnv.%s is modified outside %v", tgt, keysOf(allowed[tgt])))
